@@ -15,7 +15,7 @@ Definition eqb_err (a b : err) : bool :=
   | EInsufficientCoins, EInsufficientCoins | EDestroyCoins, EDestroyCoins | ECoinHours, ECoinHours
   | EInHoursOverflow, EInHoursOverflow | EInsufficientHours, EInsufficientHours | ECollide, ECollide
   | EDupOutAcross, EDupOutAcross | EOutInPool, EOutInPool | EDupTxn, EDupTxn | EDoubleSpend, EDoubleSpend
-  | EUxHash, EUxHash | EStore, EStore | EInsertTwice, EInsertTwice | EOther, EOther => true
+  | EUxHash, EUxHash | EStore, EStore | EInsertTwice, EInsertTwice | EHistory, EHistory | EOther, EOther => true
   | _, _ => false
   end.
 Definition eqb_outcome (a b : outcome) : bool :=
@@ -45,18 +45,22 @@ Definition state_matches (s : state) (d : dump) : bool :=
       eqb_list eqb_trip (sorted_utxo s) (d_utxo d)
   end.
 
-(* index of the first op where model and implementation differ (then stop) *)
-Fixpoint replay (i : Z) (s : state) (l : list (block * outcome * dump)) : list Z :=
+(* index of the first op where model and implementation differ (then stop);
+   EHistory (the node's HistoryDB.ParseBlock refused the block; the history db is
+   not modelled) is taken as a no-op without comparing the verdict *)
+Definition is_history (o : outcome) : bool := match o with Rejected EHistory => true | _ => false end.
+Fixpoint replay (arb : bool) (i : Z) (s : state) (l : list (block * outcome * dump * list txn)) : list Z :=
   match l with
   | [] => []
-  | (b, o, d) :: r =>
-      let '(s', o') := step s (ExecBlock b) in
-      if eqb_outcome o o' && state_matches s' d then replay (i + 1) s' r else [i]
+  | (b, o, d, _) :: r =>
+      let '(s', o') := (if arb then step_arb else step) s (ExecBlock b) in
+      if is_history o then (if state_matches s d then replay arb (i + 1) s r else [i])
+      else if eqb_outcome o o' && state_matches s' d then replay arb (i + 1) s' r else [i]
   end.
 Definition replay_mism (h : history) : list Z :=
   let s0 := init_state (hi_genesis h) in
   if state_matches s0 (hi_d0 h) && (genesis_volume (hi_genesis h) =? hi_volume h)
-  then replay 1 s0 (hi_steps h) else [0].
+  then replay (hi_arb h) 1 s0 (hi_steps h) else [0].
 
 (* ------------------------------------------------------------------
    Per-property projections of the correspondence. exec_block is the sequence
@@ -108,27 +112,69 @@ Section ReplayTxn.
   (* the model may accept, or refuse for a reason that is not this property's *)
   Definition tolerated (tx : chk) : bool :=
     match tx with Pass => true | Fail e => negb (rel e) | Boom => false end.
-  Fixpoint replay_txn (i : Z) (s : state) (l : list (block * outcome * dump)) : list Z :=
+  Definition hashes (ts : list txn) : list Z := map t_hash ts.
+  Fixpoint replay_txn (arb : bool) (i : Z) (s : state) (l : list (block * outcome * dump * list txn)) : list Z :=
     match l with
     | [] => []
-    | (b, o, d) :: r =>
+    | (b, o, d, st) :: r =>
         match chain s with
         | [] => [i]
         | head :: _ =>
+            if arb then
+              (* arbitrating node: the model's kept transactions (in order) are what the node stored *)
+              let ar := process_txns_arb (utxo s) head (b_txns b) in
+              match o with
+              | Accepted =>
+                  match ar with
+                  | ArbOk kept =>
+                      let nb := set_txns b kept in
+                      match get_array (all_ins kept) (utxo s) with
+                      | Some spent =>
+                          let s' := apply_block s nb spent in
+                          if eqb_list Z.eqb (hashes kept) (hashes st) && insert_okb s nb && utxo_matches s' d
+                          then replay_txn arb (i + 1) s' r else [i]
+                      | None => [i]
+                      end
+                  | _ => [i]
+                  end
+              | Rejected e =>
+                  let ok :=
+                    if pre_err e then true
+                    else match e with
+                         | EHistory => true                     (* history db: not modelled, a no-op *)
+                         | _ =>
+                           if post_err e then match ar with ArbOk _ => true | _ => false end
+                           else match ar with
+                                | ArbErr e' => eqb_err e e'
+                                | ArbOk kept =>
+                                    match get_array (all_ins kept) (utxo s) with
+                                    | None => eqb_err e EUnspentMissing
+                                    | Some _ => eqb_err e EInsertTwice && negb (insert_okb s (set_txns b kept))
+                                    end
+                                | ArbBoom => false
+                                end
+                         end in
+                  if ok && utxo_matches s d then replay_txn arb (i + 1) s r else [i]
+              | Crashed => match ar with ArbBoom => replay_txn arb (i + 1) s r | _ => [i] end
+              end
+            else
             let tx := process_txns (utxo s) head (b_txns b) in
             match o with
             | Accepted =>
                 match get_array (all_ins (b_txns b)) (utxo s) with
                 | Some spent =>
                     let s' := apply_block s b spent in
-                    if tolerated tx && insert_okb s b && utxo_matches s' d then replay_txn (i + 1) s' r else [i]
+                    if tolerated tx && insert_okb s b && utxo_matches s' d then replay_txn arb (i + 1) s' r else [i]
                 | None => [i]
                 end
             | Rejected e =>
                 let ok :=
                   if pre_err e then true                       (* refused before the transactions were looked at *)
                   else if post_err e then tolerated tx         (* the transactions had passed *)
-                  else match tx with
+                  else match e with
+                       | EHistory => true
+                       | _ =>
+                       match tx with
                        | Fail e' =>
                            (* a failing check of this property must be reported as such;
                               a failure of another property's check is not compared *)
@@ -141,16 +187,17 @@ Section ReplayTxn.
                              end
                            else true
                        | Boom => false
+                       end
                        end in
-                if ok && utxo_matches s d then replay_txn (i + 1) s r else [i]
-            | Crashed => if eqb_chk tx Boom then replay_txn (i + 1) s r else [i]
+                if ok && utxo_matches s d then replay_txn arb (i + 1) s r else [i]
+            | Crashed => if eqb_chk tx Boom then replay_txn arb (i + 1) s r else [i]
             end
         end
     end.
   Definition replay_txn_mism (h : history) : list Z :=
     let s0 := init_state (hi_genesis h) in
     if utxo_matches s0 (hi_d0 h) && (genesis_volume (hi_genesis h) =? hi_volume h)
-    then replay_txn 1 s0 (hi_steps h) else [0].
+    then replay_txn (hi_arb h) 1 s0 (hi_steps h) else [0].
 End ReplayTxn.
 
 (* header level (C04): signature, genesis, header and checksum checks, the
@@ -164,10 +211,10 @@ Definition head_matches (s : state) (d : dump) : bool :=
       (b_hash hd =? d_stored d) && Bool.eqb (b_sig_ok hd) (d_sig_ok d)
   end.
 Definition with_xor (s : state) (x : Z) : state := mkState (chain s) (utxo s) x.
-Fixpoint replay_hdr (i : Z) (s : state) (l : list (block * outcome * dump)) : list Z :=
+Fixpoint replay_hdr (i : Z) (s : state) (l : list (block * outcome * dump * list txn)) : list Z :=
   match l with
   | [] => []
-  | (b, o, d) :: r =>
+  | (b, o, d, _) :: r =>
       match chain s with
       | [] => [i]
       | head :: _ =>
@@ -181,7 +228,7 @@ Fixpoint replay_hdr (i : Z) (s : state) (l : list (block * outcome * dump)) : li
               let ok :=
                 if pre_err e then eqb_chk pre (Fail e)
                 else if post_err e then eqb_chk pre Pass && eqb_chk post (Fail e)
-                else eqb_chk pre Pass in                       (* refused by a transaction-level check *)
+                else eqb_chk pre Pass in                       (* refused by a transaction-level check or the history db *)
               if ok && head_matches s d && (xorsum s =? d_xor d) then replay_hdr (i + 1) s r else [i]
           | Crashed => [i]
           end
@@ -191,10 +238,3 @@ Definition replay_hdr_mism (h : history) : list Z :=
   let s0 := with_xor (init_state (hi_genesis h)) (d_xor (hi_d0 h)) in
   if head_matches s0 (hi_d0 h) then replay_hdr 1 s0 (hi_steps h) else [0].
 
-(* the model's own verdicts, for the evidence *)
-Fixpoint model_accepts (s : state) (l : list (block * outcome * dump)) : Z :=
-  match l with
-  | [] => 0
-  | (b, _, _) :: r => let '(s', o') := step s (ExecBlock b) in
-                      (if is_accepted o' then 1 else 0) + model_accepts s' r
-  end.
